@@ -245,6 +245,14 @@ def r_call(call, style, root_ctx, chain):
     if style.get("group_items"):
         # grouping parentheses around each argument: f((a), (g(b)))
         items = [[("o", "(")] + it + [("o", ")")] for it in items]
+    if style.get("group_prefix") and len(items) >= 2:
+        # a parenthesised sequence as the first argument(s): f((a, b), c)
+        k = 2
+        grouped = [("o", "(")] + items[0]
+        for it in items[1:k]:
+            grouped += [("o", ",")] + it
+        grouped.append(("o", ")"))
+        items = [grouped] + items[k:]
     toks = list(fn)
     if items or suffix or style.get("always_parens", False) or tail is None:
         toks.append(("o", "("))
@@ -280,6 +288,7 @@ STYLES = [
     {"name": "chain-marked", "chain": True, "chain_all": True, "mark_after_gt": True},  # f > !x
     {"name": "paren-grouped-items", "group_items": True},  # f((a), (g((b))))
     {"name": "chain-grouped-items", "chain": True, "chain_all": True, "group_items": True},
+    {"name": "paren-grouped-prefix", "group_prefix": True},  # f((a, b), c)
 ]
 
 
